@@ -211,6 +211,24 @@ func genC06(c *Ctx) {
 		ops := randomThOps(c, s, 4+c.intn(10))
 		c.Case("object-sequence", "th.obj "+s.envLine()+" "+strings.Join(ops, " "), runThOps(s, ops))
 	}
+	// targeted: an invalid share of each kind injected through TrustedAdd at each slot, then repeated ThresholdSignature calls
+	for _, nt := range [][2]int{{3, 1}, {5, 2}} {
+		for _, kind := range badKinds {
+			for slot := 0; slot <= nt[1]; slot++ {
+				s := newThSetup(c, nt[0], nt[1])
+				var ops []string
+				for i := 0; i <= s.t; i++ {
+					sh := s.shares[i]
+					if i == slot {
+						sh = s.badShare(c, i, kind)
+					}
+					ops = append(ops, fmt.Sprintf("T:%d:%s", i, hx(sh)))
+				}
+				ops = append(ops, "E", "S", "S", fmt.Sprintf("V:%d:%s", s.n-1, hx(s.shares[s.n-1])), "S", "E", fmt.Sprintf("H:%d", slot))
+				c.Case("object-bad-trusted-add/"+kind, "th.obj "+s.envLine()+" "+strings.Join(ops, " "), runThOps(s, ops))
+			}
+		}
+	}
 	// constructor guards
 	s := newThSetup(c, 3, 1)
 	ec := ecSk(ecCurves[0], big.NewInt(3))
